@@ -126,15 +126,26 @@ def gen_case(ctx, k):
         nsp = len(case["net"]["species"])
         chem = [0] * (nsp * nn)
         s = rng.randrange(nsp)
+        flag = rng.choice([1, 1, 2, 5, True])       # the flag is a truth value: 5 or 2 protect an entry like 1 does
         for i in range(nn):
-            chem[s * nn + i] = int(rng.random() < 0.5)
-        case["chem"] = chem
+            chem[s * nn + i] = (flag if rng.random() < 0.5 else 0)
+        if rng.random() < 0.5:
+            case["chem"] = [int(v) for v in chem]
+        else:
+            labs_ = [sp_["label"] for sp_ in case["net"]["species"]]
+            case["set_chem"] = [[labs_[s], i, flag if flag is not True else True] for i in range(nn) if chem[s * nn + i]]
         case["net"]["species"][s]["D"] = float(rng.choice([1, 2]))
+        # make sure the flagged species takes part in a reaction
+        labs2 = [sp_["label"] for sp_ in case["net"]["species"]]
+        if len(labs2) >= 2 and rng.random() < 0.7:
+            other = labs2[(s + 1) % len(labs2)]
+            case["net"]["reactions"] = list(case["net"]["reactions"])[:2] + [
+                {"eq": "%s -> %s" % (labs2[s], other), "k+": 1.0, "k-": 0.5}]
     return case
 
 
 def small(case):
-    return {k: case[k] for k in ("net", "space", "kind", "option", "seed", "dt", "tmax", "state", "max_iter", "edge", "chem", "units", "before", "same_object") if k in case}
+    return {k: case[k] for k in ("net", "space", "kind", "option", "seed", "dt", "tmax", "state", "max_iter", "edge", "chem", "set_chem", "units", "before", "same_object") if k in case}
 
 
 def own_rates(case, arr):
@@ -307,8 +318,10 @@ def run(ctx):
             ctx.count("space_" + case["kind"])
             if case.get("cls"):
                 ctx.count("class_" + case["cls"])
-            if case.get("chem") and 0 < sum(case["chem"]) < len(case["chem"]):
+            if (case.get("chem") and 0 < sum(1 for v in case["chem"] if v) < len(case["chem"])) or case.get("set_chem"):
                 ctx.count("scripts_with_partial_chemostat_map")
+            if any(v not in (0, 1) for v in arr["chem"]):
+                ctx.count("scripts_with_flag_values_other_than_1")
             ctx.count("orders_" + "".join(str(o) for o in sorted(set(rates.order))))
             if any(arr["chem"]):
                 ctx.count("scripts_with_chemostats")
@@ -399,7 +412,7 @@ def run(ctx):
 
 def replay(ctx, rec):
     case = rec.get("case", rec)
-    base = {k: case[k] for k in ("net", "space", "kind", "option", "seed", "dt", "tmax", "state", "max_iter", "edge", "chem", "units", "before", "same_object") if k in case}
+    base = {k: case[k] for k in ("net", "space", "kind", "option", "seed", "dt", "tmax", "state", "max_iter", "edge", "chem", "set_chem", "units", "before", "same_object") if k in case}
     res = stoch_gen.run_batch("stoch_gen", "child_run_seq", [base], kind="shim", timeout=60)[0]
     if res is None or res.get("hang") or "crash" in res or "exception" in res:
         return False, {"case": base, "impl": res}
